@@ -158,7 +158,13 @@ func cellsLeaves(v ssa.Value, seen map[ssa.Value]bool, out *[]ssa.Value) {
 		return
 	case *ssa.Extract:
 		if call, ok := x.Tuple.(*ssa.Call); ok && x.Index == 0 {
-			*out = append(*out, call)
+			if !cellsThroughHelper(call, seen, out) {
+				*out = append(*out, call)
+			}
+			return
+		}
+	case *ssa.Call:
+		if cellsThroughHelper(x, seen, out) {
 			return
 		}
 	case *ssa.UnOp:
@@ -172,6 +178,41 @@ func cellsLeaves(v ssa.Value, seen map[ssa.Value]bool, out *[]ssa.Value) {
 		}
 	}
 	*out = append(*out, v)
+}
+
+// cellsOrderKeepers: helpers whose result is judged as a whole (R28's producer table).
+var cellsOrderKeepers = map[string]bool{"appendOrReplaceCell": true, "filterCells": true, "applyGC": true}
+
+// cellsThroughHelper: the cells come out of an in-package helper that is not in the
+// producer table (e.g. an extracted "delete cells in range"): look at what it returns —
+// reslices / compactions of a parameter continue with the caller's argument, anything
+// else is a leaf to be judged like a local value.
+func cellsThroughHelper(call *ssa.Call, seen map[ssa.Value]bool, out *[]ssa.Value) bool {
+	g := call.Call.StaticCallee()
+	if g == nil || g.Blocks == nil || core.PkgPathOf(g) != core.PkgBttest || cellsOrderKeepers[core.FuncName(g)] || len(seen) > 200 {
+		return false
+	}
+	var inner []ssa.Value
+	for _, r := range returnsIn(g) {
+		if len(r.Results) == 0 {
+			return false
+		}
+		for _, rv := range returnValues(r.Results[0]) {
+			cellsLeaves(rv, seen, &inner)
+		}
+	}
+	for _, lf := range inner {
+		if pa, ok := lf.(*ssa.Parameter); ok && pa.Parent() == g {
+			for i, q := range g.Params {
+				if q == pa && i < len(call.Call.Args) {
+					cellsLeaves(call.Call.Args[i], seen, out)
+				}
+			}
+			continue
+		}
+		*out = append(*out, lf)
+	}
+	return true
 }
 
 func R28() Rule {
